@@ -84,7 +84,7 @@ func New(name string, opts txfile.Options) *Env {
 	core.InstallHook()
 	e := &Env{Disk: simdisk.New(name), Opts: opts, PS: int(opts.PageSize), Record: true, IO: true,
 		kinds: map[uint64]string{}, Live: map[uint64]bool{}}
-	e.Disk.OnOp = e.onDiskOp
+	e.Disk.OnOp = e.OnDiskOp
 	return e
 }
 
@@ -255,7 +255,8 @@ func regList(rs []Region) [][2]uint64 {
 	return out
 }
 
-func (e *Env) onDiskOp(op *simdisk.Op) {
+// OnDiskOp records the I/O of the simulated disk.
+func (e *Env) OnDiskOp(op *simdisk.Op) {
 	if !e.Record || !e.IO || e.PS == 0 {
 		return
 	}
@@ -286,16 +287,16 @@ func (e *Env) onDiskOp(op *simdisk.Op) {
 			if kind == "H" {
 				complete = len(chunk) >= HdrSize
 			}
-			e.Emit(core.Event{"ev": "W", "pg": pg, "c": e.contentOf(pg, chunk, kind, complete)})
+			e.Emit(core.Event{"ev": "W", "pg": pg, "c": e.contentOf(pg, chunk, kind, complete), "io": op.Idx})
 		}
 	case simdisk.OpSync:
 		if op.Err {
 			e.Emit(core.Event{"ev": "Note", "what": "sync-failed"})
 		} else {
-			e.Emit(core.Event{"ev": "S"})
+			e.Emit(core.Event{"ev": "S", "io": op.Idx})
 		}
 	case simdisk.OpTruncate:
-		e.Emit(core.Event{"ev": "Note", "what": "truncate", "n": op.Size / int64(e.PS), "err": op.Err})
+		e.Emit(core.Event{"ev": "Note", "what": "truncate", "n": op.Size / int64(e.PS), "err": op.Err, "io": op.Idx})
 	}
 }
 
@@ -305,8 +306,18 @@ func (e *Env) DiskImage(img []byte) [][2]interface{} {
 	ps := e.PS
 	n := len(img) / ps
 	kinds := map[uint64]string{0: "H", 1: "H"}
+	// only the chains of the header that wins describe the current state; a page of the
+	// other header's chains may have been recycled as a data page since
+	var hs [2]Header
 	for s := 0; s < 2 && (s+1)*ps <= len(img); s++ {
-		h := DecodeHeader(img[s*ps:])
+		hs[s] = DecodeHeader(img[s*ps:])
+	}
+	win := 0
+	if !hs[0].OK || (hs[1].OK && int64(hs[1].TxID-hs[0].TxID) > 0) {
+		win = 1
+	}
+	for s := win; s == win; s++ {
+		h := hs[s]
 		if !h.OK {
 			continue
 		}
@@ -377,7 +388,7 @@ func (e *Env) Open(model map[uint64][4]int, root uint64) error {
 		e.Live[id] = true
 	}
 	e.Root = root
-	e.Emit(core.Event{"ev": "Adopt", "root": root, "pages": pages, "st": e.St(), "disk": e.DiskImage(dur)})
+	e.Emit(core.Event{"ev": "Adopt", "root": root, "pages": pages, "st": e.St(), "disk": e.DiskImage(dur), "io": e.Disk.NOps()})
 	return nil
 }
 
@@ -645,4 +656,52 @@ func (e *Env) ReadAll(name string) {
 		e.Read(r, id)
 	}
 	e.EndRead(r, e.Tx == nil)
+}
+
+// LiveOf computes the pages that are live according to a file snapshot.
+func LiveOf(st txfile.VerifState) []uint64 {
+	used := map[uint64]bool{}
+	mark := func(rs []txfile.VerifRegion) {
+		for _, r := range rs {
+			for i := uint64(0); i < uint64(r.Count); i++ {
+				used[r.ID+i] = true
+			}
+		}
+	}
+	mark(st.DataFree)
+	mark(st.MetaFree)
+	mark(st.FreelistPages)
+	mark(st.WALPages)
+	for _, kv := range st.WAL {
+		used[kv[1]] = true
+	}
+	var out []uint64
+	for id := uint64(2); id < st.DataEnd; id++ {
+		if !used[id] {
+			out = append(out, id)
+		}
+	}
+	return out
+}
+
+// ReadLogical reads root and all live pages of an open file.
+func ReadLogical(f *txfile.File) (root uint64, pages [][2]interface{}, model map[uint64][4]int, err error) {
+	st := f.VerifSnapshot(false)
+	tx, err := f.BeginReadonly()
+	if err != nil {
+		return 0, nil, nil, err
+	}
+	defer tx.Close()
+	root = uint64(tx.Root())
+	model = map[uint64][4]int{}
+	pages = [][2]interface{}{}
+	for _, id := range LiveOf(st) {
+		q, rerr := ReadPage(tx, id)
+		if rerr != nil {
+			q = [4]int{QGarbage, QGarbage, QGarbage, QGarbage}
+		}
+		pages = append(pages, [2]interface{}{id, q})
+		model[id] = q
+	}
+	return root, pages, model, nil
 }
